@@ -2,6 +2,7 @@ package main
 
 import (
 	"fmt"
+	"math"
 	"unicode/utf8"
 
 	"github.com/ichiban/prolog/engine"
@@ -14,10 +15,14 @@ type conv struct {
 	vars    map[int64]engine.Variable // controller variable id → engine variable (per case)
 	streams map[*engine.Stream]int64
 	nodes   int
+	// shared: equal compound sub-terms of the terms built for one case are ONE engine object, as they are when a
+	// Prolog program binds a variable to a compound and uses it twice (terms are immutable, so this is
+	// unobservable for a correct engine; it exposes code that mutates or remembers terms by identity)
+	shared map[string]engine.Term
 }
 
 func newConv() *conv {
-	return &conv{vars: map[int64]engine.Variable{}, streams: map[*engine.Stream]int64{}}
+	return &conv{vars: map[int64]engine.Variable{}, streams: map[*engine.Stream]int64{}, shared: map[string]engine.Term{}}
 }
 
 const maxNodes = 2_000_000
@@ -86,6 +91,52 @@ func (c *conv) tree(t engine.Term, env *engine.Env, depth int) *term.Term {
 
 // fromTree builds an engine term, choosing the representation of list runs as the tree asks.
 func (c *conv) fromTree(t *term.Term) engine.Term {
+	if t.K == term.KCmp && !t.IsCmp(".", 2) && c.shared != nil {
+		if k, ok := shareKey(t, 0); ok {
+			if e, ok := c.shared[k]; ok {
+				return e
+			}
+			e := c.build(t)
+			c.shared[k] = e
+			return e
+		}
+	}
+	return c.build(t)
+}
+
+// shareKey is a structural key of a small non-list compound (ok=false for big terms and terms containing lists,
+// which are always built afresh so that their representation hints are honoured).
+func shareKey(t *term.Term, depth int) (string, bool) {
+	if depth > 6 {
+		return "", false
+	}
+	switch t.K {
+	case term.KVar:
+		return fmt.Sprintf("v%d", t.I), true
+	case term.KAtom:
+		return "a" + t.S + "\x00", true
+	case term.KInt:
+		return fmt.Sprintf("i%d", t.I), true
+	case term.KFloat:
+		return fmt.Sprintf("f%x", math.Float64bits(t.F)), true
+	case term.KCmp:
+		if t.IsCmp(".", 2) || len(t.Args) > 8 {
+			return "", false
+		}
+		k := fmt.Sprintf("c%s\x00%d(", t.S, len(t.Args))
+		for _, a := range t.Args {
+			ak, ok := shareKey(a, depth+1)
+			if !ok {
+				return "", false
+			}
+			k += ak + ","
+		}
+		return k + ")", true
+	}
+	return "", false
+}
+
+func (c *conv) build(t *term.Term) engine.Term {
 	switch t.K {
 	case term.KVar:
 		v, ok := c.vars[t.I]
